@@ -24,7 +24,7 @@ CHECKS = {
         "batches": [("C06", "asan", 4, 4000, 60000)],
         "rule": ("one evaluation = one simulated run: 1-6 processor instances (26 kinds: FirFilter R/C, FftFilter R/C and with complex taps on a real stream / real taps on a complex stream, FIRDecimator, FIRInterpolator, "
                  "FIRRateConverter, FIRResampler, Delay R/C, MedianFilter, MAFilter R/C, HilbertFilter, Tuner, Agc R/C, Compressor, Limiter, NoiseGate, "
-                 "LMS/NLMS R/C, RLS R/C) with seeded parameters, streams (gaussian, impulses, steps, bursts with silence, tones, 60 dB level changes, 120 dB bursts, short patterns repeated so that whole frames recur) and framings, constructed lazily (next to live siblings; 15 % get a twin with equal integer parameters) and interleaved on 1-4 simulated threads with churn. Object-lifetime events inside a stream: 1 in 5 instances is replaced mid-stream by a copy of itself, forked into original + copy, replaced by a move-constructed successor, or copy-ASSIGNED over a used object of the same configuration; 1 in 7 is offered a call of invalid shape that must be rejected without effect. "
+                 "LMS/NLMS R/C, RLS R/C) with seeded parameters, streams (gaussian, impulses, steps, bursts with silence, tones, 60 dB level changes, 120 dB bursts, short patterns repeated so that whole frames recur) and framings, constructed lazily (next to live siblings; 15 % get a twin with equal integer parameters - half of the twins are fed the SAME samples, HilbertFilter twins may be NEAR twins with the same transition width and a length changed by 2..24) and interleaved on 1-4 simulated threads with churn. Object-lifetime events inside a stream: 1 in 5 instances is replaced mid-stream by a copy of itself, forked into original + copy, replaced by a move-constructed successor, or copy-ASSIGNED over a used object of the same configuration; 1 in 7 is offered a call of invalid shape that must be rejected without effect. "
                  "5 % of the instances (thorough 12 %) additionally enumerate ALL 2^(n-1) compositions of their 2..9 (11) granule stream, each on a fresh instance. A case is non-trivial when the stream was cut into >= 2 frames; cases are distinct by (kind, log2 memory class, framing style, "
                  "{frame shorter than memory, single-sample frame, frame spanning two internal blocks}, exact composition for the <=12-granule "
                  "bitmask framings)."),
@@ -73,7 +73,7 @@ CHECKS = {
         "batches": [("C18", "asan", 4, 4000, 300000)],
         "rule": ("one evaluation = one scenario: a preamble (Zadoff-Chu, PN +-1 or chirp, length 16..512, amplitude over 60 dB, optional noise >= 30 dB below it) "
                  "arrives so that its last sample falls on a seeded stream index (every residue modulo frame_len(), biased to the first/last sample of a frame and to "
-                 "preambles straddling a frame boundary); the transport delivers 1-4 frames per call and keeps delivering after the detection (nothing more may be reported); 15 % of the streams carry no preamble; 2 in 7 detectors have already processed another stream and were reset(); 1 in 5 histories contains a call of unsupported length that must be rejected without side effect. A scenario is judged "
+                 "preambles straddling a frame boundary); the transport delivers 1-4 frames per call and keeps delivering after the detection (nothing more may be reported); 15 % of the streams carry no preamble; the caller's reference array is overwritten as soon as the detector exists (the detector owns its reference); 2 in 7 detectors have already processed another stream and were reset(); 1 in 5 histories contains a call of unsupported length that must be rejected without side effect. A scenario is judged "
                  "only if an independent long-double evaluation of the documented score gives the true peak >= 1.1 x threshold and every other score <= 0.9 x "
                  "threshold (others are discarded and counted). Distinct by (preamble kind, length/8, residue of the last sample modulo the frame length, straddle, "
                  "multi-frame call, noise)."),
@@ -85,7 +85,7 @@ CHECKS = {
         "batches": [("C19", "asan", 4, 6000, 1000000), ("C19", "tsan", 4, 2000, 200000)],
         "rule": ("one evaluation = one simulated run of 1-4 (thorough: 8) threads, each executing a prefix of generator calls (rand / randn / randi in every "
                  "overload incl. single-value, negative and wider-than-2^31 ranges, awgn real/complex), rng(s) (30 %: the same seed twice with 0-2 calls in between), and a suffix, interleaved by the scheduler at basic-block edges "
-                 "(every thread is the other threads' disturbance: they seed and draw between any two of its draws). Non-trivial: >= 2 threads or >= 3 ops; "
+                 "(every thread is the other threads' disturbance: they seed and draw between any two of its draws); 5 % of the sequences additionally see thread churn - 1-70 short-lived threads that draw once and exit while the sequence is in progress (the reference is the undisturbed sequence). Non-trivial: >= 2 threads or >= 3 ops; "
                  "distinct by the sequence of (thread, op kind, first argument)."),
         "assumptions": ["reference: the same suffix after rng(s) in a fresh OS thread, and again after a different generated prefix; exact (bitwise) equality",
                         "tsan flavour: the scheduler hands the token over with raw futex words TSan cannot see, so any unsynchronised sharing of generator state "
